@@ -1,0 +1,29 @@
+//go:build verif
+
+// Contracts for package blockproof, read by /verif/govc (comment-only: no declarations, no effect on any build).
+
+package blockproof
+
+// The block proof generated from the commits handed to the commit callback (C20, and the producer half of C03): the
+// block reference repeats the first commit's signed fields under type COMMIT, there is exactly one node per commit, in
+// order, carrying that commit's sender id and signature, and the random-seed signature is the key manager's aggregate.
+// With a canonically encoded first header (what HandleCommit accepts since the F10 repair) the re-encoded reference is
+// byte-identical to the bytes every commit signature was verified over.
+//@ func GenerateLeanHelixBlockProof
+//@   props C20 C03
+//@   requires len(commitMessages) >= 1
+//@   requires forall i int :: 0 <= i && i < len(commitMessages) ==> commitMessages[i] != nil && commitMessages[i].content != nil
+//@   ensures [ref.fields] result != nil && result.BlockRef().MessageType() == protocol.LEAN_HELIX_COMMIT
+//@     | && result.BlockRef().InstanceId() == commitMessages[0].content.SignedHeader().InstanceId()
+//@     | && result.BlockRef().BlockHeight() == commitMessages[0].content.SignedHeader().BlockHeight()
+//@     | && result.BlockRef().View() == commitMessages[0].content.SignedHeader().View()
+//@     | && result.BlockRef().BlockHash() == commitMessages[0].content.SignedHeader().BlockHash()
+//@   ensures [ref.bytes] commitMessages[0].content.SignedHeader().MessageType() == protocol.LEAN_HELIX_COMMIT
+//@     | && content(commitMessages[0].content.SignedHeader().Raw()) == BlockRefBytes(protocol.LEAN_HELIX_COMMIT, commitMessages[0].content.SignedHeader().InstanceId(), commitMessages[0].content.SignedHeader().BlockHeight(), commitMessages[0].content.SignedHeader().View(), content(commitMessages[0].content.SignedHeader().BlockHash()))
+//@     | ==> content(result.BlockRef().Raw()) == content(commitMessages[0].content.SignedHeader().Raw())
+//@   ensures [nodes.one-per-commit] seq_len(result, "Nodes") == len(commitMessages)
+//@   ensures [nodes.sender-and-signature] forall k int :: 0 <= k && k < len(commitMessages) ==> seq_at(result, "Nodes", k).MemberId() == commitMessages[k].content.Sender().MemberId()
+//@     | && seq_at(result, "Nodes", k).Signature() == commitMessages[k].content.Sender().Signature()
+//@   loop range commitMessages
+//@     invariant [builders] len(cSendersBuilders) == $i && len(cShares) == $i
+//@     invariant [copied] forall k int :: 0 <= k && k < $i ==> cSendersBuilders[k] != nil && alive[cSendersBuilders[k]] && cSendersBuilders[k].MemberId == commitMessages[k].content.Sender().MemberId() && cSendersBuilders[k].Signature == commitMessages[k].content.Sender().Signature()
